@@ -29,7 +29,24 @@ impl Blob {
     pub fn bytes(&self) -> Vec<u8> {
         match self {
             Blob::Lit(h) => h.0.clone(),
-            Blob::Gen { len, seed } => gen_bytes(*len as usize, *seed),
+            Blob::Gen { len, seed } => {
+                let mut v = gen_bytes(*len as usize, *seed);
+                // one generated blob in sixteen looks like protocol: every other 8-byte block is a
+                // record header (ids 1 and 0, all phases' record types), so that payload bytes a
+                // parser wrongly interprets as records are plausible ones
+                if *seed % 16 == 7 && v.len() >= 16 {
+                    let mut k = 0usize;
+                    while (k + 1) * 8 <= v.len() {
+                        if k % 2 == 0 {
+                            let t = [4u8, 5, 2, 1, 8, 9, 4, 11][(*seed as usize / 16 + k / 2) % 8];
+                            let id = if (*seed / 128) % 4 == 0 { 0u8 } else { 1 };
+                            v[k * 8..k * 8 + 8].copy_from_slice(&[1, t, 0, id, 0, 0, (*seed >> 12) as u8 % 3, 0]);
+                        }
+                        k += 1;
+                    }
+                }
+                v
+            },
         }
     }
     pub fn len(&self) -> usize {
